@@ -23,13 +23,13 @@ claim('C01', 'icontract post-condition on read_stack judged by an independent la
 claim('C05', 'recording post-condition on analysis.lb / observation of Panel.lb outputs, judged by a dense LAPACK reference and pencil backward-error residuals',
       'Every returned (multiplier, mode) pair is judged by its normalised backward error on the pencil (K, KG), by zeros on null amplitudes, and - for '
       'sub-critical destabilising loads - against the sorted positive reference multipliers; sparse-vs-dense agreement and the 1/s scaling law are '
-      'checked by further real executions. Random symmetric pairs with null rows/cols, all KG sign structures, both solver switches, plus package matrices.',
+      'checked by further real executions. Random symmetric pairs with null rows/cols, all KG sign structures, both solver switches, plus package matrices. Also: ConeCyl.lb (plain and combined load cases), matrices of generated assemblies and stiffened bays, a common unit-system factor 1e-14..1e3; value tolerances from the measured backward error times the eigenvalue condition number.',
       'scipy.linalg.eigh on the active sub-matrices as reference; tolerances scale with eps*||K||/||KG|| and eps*cond(K) (stated in the check)', '4/C05')
 
 claim('C06', 'recording post-condition on analysis.freq / observation of Panel.freq outputs, judged by a dense LAPACK reference, residuals and literal ordering',
       'Every returned (frequency, mode) pair is judged by its backward error on K v = w^2 M v, positivity, zeros on massless amplitudes, literal ascending order '
       '(sort=True), agreement of the lowest frequencies with the reference spectrum, sparse-vs-dense agreement and the 1/sqrt(s) mass-scaling law, on random SPD '
-      'pairs with constructed spectra (spread, clustered within 0.1 rad/s, omega~1, repeated) and on package matrices.',
+      'pairs with constructed spectra (spread, clustered within 0.1 rad/s, omega~1, repeated) and on package matrices. Also: assembly and bay matrices, pre-stressed Panel.freq (atype 3), wide spectra spanning 5e9 in omega^2, unit-system factors; reference for the lowest frequencies in the inverse form.',
       'scipy.linalg.eigh reference; dense reduced_dof=True raises for every input and is counted as a rejection', '4/C06')
 
 claim('C10', 'ctypes probes on a shared object compiled from the working tree lib sources, judged by exact rational (fractions.Fraction) Bardell algebra',
@@ -50,53 +50,53 @@ claim('C09', 'boundary monitor (recording lists shadowing Analysis.cs/increments
 claim('C02', 'reference-model monitor on Panel.calc_k0: entry-wise comparison with an energy Hessian obtained by numpy Gauss quadrature of the package\'s own strain field; metamorphic relations (tiling, pre-load) between real executions',
       'Every entry of every returned k0 is compared (1e-10 of an absolute-value scale) with sum_p w_p B(p)^T F B(p), B recovered from Panel.strain on unit amplitudes '
       '(ctypes basis + strain table for the w-only and conical models, radius frozen per section as the kernel does), F from the independent lamination oracle; exact symmetry, '
-      'zero outside the placed block, PSD, sub-interval tiling and the N_cte pre-load clause are further real executions. Hundreds to thousands of random panels per run over all four models.',
+      'zero outside the placed block, PSD, sub-interval tiling and the N_cte pre-load clause are further real executions. Hundreds to thousands of random panels per run over all four models. Also: the same object re-judged after its definition changed (a, b, edge flags, m<->n, ply thicknesses, angles, offset, radius, cone angle), sparse constant pre-loads, panels with force_orthotropic_laminate.',
       'strain recovery kernel cfstrain (itself judged by C11) or the ctypes basis (judged exactly by C10); conical strain table taken from the repository theory notebook (twist term coefficient 1)', '4/C02')
 claim('C03', 'reference-model monitor on Panel.calc_kG0 (analytic and state-based paths): entry-wise comparison with the pre-stress-work Hessian by quadrature of recovered slopes',
       'kG0 from fkG0/fkG0y1y2 is compared entry-wise with sum_p w_p G^T N G (G = recovered slopes) for all load triples incl. shear/tension/mixed sign, all four models, sub-intervals and '
       'placement; u/v rows must be exactly zero; linearity by three unit-load executions. The state-based fkG_num matrix is compared with the same form using N = A eps + B kappa computed by '
-      'the oracle at every integration point (NLgeom on/off, orders 2..64, uniform vs per-point table, uniform-membrane states reproducing the constant-load matrix).',
+      'the oracle at every integration point (NLgeom on/off, orders 2..64, uniform vs per-point table, uniform-membrane states reproducing the constant-load matrix). Also: square and non-square Gauss grids on the table paths, state vectors in several memory layouts, sparse load triples.',
       'Panel.uvw / Panel.strain recovery kernels (judged by C11); numpy leggauss points equal the package table to 1e-14 (C10)', '4/C03')
 
 claim('C04', 'reference-model monitor on Panel.calc_kM: entry-wise comparison with the kinetic-energy Hessian by quadrature of the recovered displacement field; conservation (total mass) and invariance (reference surface) relations on real executions',
       'Every entry of every returned kM is compared with sum_p w_p U(p)^T J U(p) (U = u,v,w,phix,phiy recovered per unit amplitude; J the 5x5 inertia form with first moment mu*h*d and '
       'second moment mu*h*(d^2+h^2/12)) for all four models, sub-intervals, placement and offsets of both signs; symmetry/PSD/PD; rigid translations of unrestrained panels must carry '
-      'mu*h*area; and the non-rigid spectrum of a free homogeneous plate from the real K(d), M(d) must not move with d.',
+      'mu*h*area; and the non-rigid spectrum of a free homogeneous plate from the real K(d), M(d) must not move with d. Also: total mass of stiffened bays with per-stiffener densities, and the mass contribution of 2-D stiffeners against their panels\' own mass matrices at the documented amplitude ranges.',
       'sign of the first-moment coupling follows the laminate convention (plies at z=+offset, U=u-z*w,x); the invariance clause is its convention-free witness', '4/C04')
 
 claim('C19', 'reference-model monitor on Panel.calc_kA / calc_cA / StiffPanelBay.calc_kA: entry-wise comparison with quadrature of the stated bilinear forms on recovered w and slopes; structure, linearity, axis-exchange and Mach-route relations on real executions',
       'Both triangles of every returned kA are compared with beta*int(w_A dw_B/dflow) - gamma*int(w_A w_B) (w restrained on the flow edges), cA with -aeromu*int(w_A w_B)*1j; zero on u/v; beta part skew, gamma '
-      'and damping parts symmetric (beta and gamma separated by two executions); linearity; flow-y vs flow-x on the axis-exchanged panel; Mach/density/speed route vs explicit coefficients; the bay matrix vs its first panel and vs the stated form.',
+      'and damping parts symmetric (beta and gamma separated by two executions); linearity; flow-y vs flow-x on the axis-exchanged panel; Mach/density/speed route vs explicit coefficients; the bay matrix vs its first panel and vs the stated form. Also: panels placed inside a larger matrix (kA and cA), bays with flow along y.',
       'gamma exercised for flow x only (the flow-y kernel has no curvature term; the statement does not fix that case); control group with w free on a flow edge judged on structure/linearity only', '4/C19')
 
 claim('C11', 'reference-model monitor on Panel / PanelAssembly / StiffPanelBay field recovery: every returned value compared with a numpy evaluation of the Ritz series from ctypes basis values; bit-exact invariance under permutation, batching and thread count',
       'uvw, phix/phiy, the six strains (NLterms on and off as requested) and the six stress resultants returned by the real methods are compared point by point (1e-11 of sum|c_k||basis_k|) with '
       'the series and the Donnell relations evaluated independently; stress against F times the strains of the same request; shuffled / one-at-a-time / other-thread-count executions must be bit-identical; '
-      'assembly groups and bay skin/stiffener regions must use their own slice of the amplitude vector (stiffeners of all three kinds in mixed insertion order).',
+      'assembly groups and bay skin/stiffener regions must use their own slice of the amplitude vector (stiffeners of all three kinds in mixed insertion order). Also: amplitude vectors and 2-D point arrays in several memory layouts, assembly stress with different laminates per group.',
       'ctypes basis functions (judged exactly by C10); PanelAssembly fields are evaluated on its default linspace grids', '4/C11')
 
 claim('C08', 'polynomial-exact differencing monitor on Panel/PanelAssembly calc_fint and calc_kT: 5-point stencil of the cubic internal force gives its directional derivative exactly; exact closed-path work',
       'At generated deformed states (w up to 5 thicknesses, B-coupled/offset laminates, random flags, uniform and per-point tables, plate and cylindrical models, assemblies with all five '
       'connection kinds in shuffled order) the monitor checks fint(0)=0, the linear coefficient of t->fint(t c) equals K0 c, kT(c) dc equals the exact stencil derivative of fint for several '
-      'directions, kT symmetric, kT(0)=K0, zero work around random closed polygons (exact Gauss per edge), consistency of the discretised pair at reduced Gauss orders, and that the assembly adds k0_conn*c.',
+      'directions, kT symmetric, kT(0)=K0, zero work around random closed polygons (exact Gauss per edge), consistency of the discretised pair at reduced Gauss orders, and that the assembly adds k0_conn*c. Also: states with exactly quiet parts (membrane-only, bending-only, a quiet component of an assembly), memory layouts of the state vector, forced-orthotropic panels.',
       'fint is a cubic polynomial of the amplitudes (verified per case by comparing stencils at h and h/2)', '4/C08')
 
 claim('C07', 'recording post-conditions on sparse.solve / analysis.static (all bindings, so Panel.static is observed) judged by residuals; calc_fext of panels, assemblies and bays judged by virtual work through the displacement kernel (a different kernel from the load-vector kernel)',
       'For generated force sets (interior/edge/corner, constant and incrementable, load factors in [0,2]) the product fext.c is compared for several random c with sum f.(u,v,w) taken from the package\'s own uvw / uvw_skin / '
       'uvw_stiffener at the force points, for single panels of all four models (with placement), assemblies of unequal panels in shuffled order and bays with forces on skin, base and flange; inc-linearity and fext(0)=constant part by '
-      'further executions; every observed solve call is judged by backward error on active amplitudes and zeros on null ones; linear dependence on the loads.',
+      'further executions; every observed solve call is judged by backward error on active amplitudes and zeros on null ones; linear dependence on the loads. Also: load and stiffness magnitudes over 20 decades, repeated load positions, the same panel re-judged after redefinition, bays with several loaded / unloaded stiffeners.',
       'Panel.uvw kernels (judged by C11); static clauses apply to non-singular K (restrained panels / SPD random systems)', '4/C07')
 
 claim('C12', 'reference-model monitor on PanelAssembly.get_k0_conn and the fkC* kernels: entry-wise comparison with quadrature of the interface mismatch energy built from each panel\'s recovered fields; convention-free consequences on real executions',
       'For all five connection kinds, interface positions at edges and in the interior, unequal panels (size, orders, laminates, flags), p1 before/after p2 with unrelated panels in between, the returned matrix is compared entry-wise '
       'with kt*sum w Jt^T Jt + kr*sum w Jr^T Jr (J = jump of the recovered displacement / slope fields); symmetry, PSD, locality, zero energy for common rigid translations of unrestrained panels, proportionality to (kt,kr) over ten decades, '
-      'and symmetry / degree-1 homogeneity of calc_kt_kr.',
+      'and symmetry / degree-1 homogeneity of calc_kt_kr. Also: the connections the stiffener classes build themselves (BladeStiff2D skin-flange, TStiff2D skin-base strip and base-flange line at arbitrary line positions).',
       'jump conventions as documented in connections/__init__.py (listed in the evidence assumptions); Panel.uvw kernels (C11)', '4/C12')
 
 claim('C13', 'differential execution: assembled matrices of the real PanelAssembly / StiffPanelBay against stand-alone component matrices from separately constructed objects placed by the monitor; split-skin and one-stiffener-at-a-time bays',
       'Assemblies of 2..6 unequal panels in shuffled order: k0 (+connection matrix), kG0, kM, fext and size equal the placed stand-alone results; bays with the skin cut at 1..4 random positions equal the uncut bay and the '
       'full-width analytic panel (k0, kG0, kM); bays with 1..3 stiffeners of the three kinds in every insertion order: K(all) - K(skin) equals the sum of single-stiffener contributions shifted to the documented block offsets, '
-      'each stiffness / mass contribution symmetric and PSD.',
+      'each stiffness / mass contribution symmetric and PSD. Also: sparse pre-load triples incl. pure shear, a pre-load of its own on every skin strip, force vectors with both force kinds at a load factor.',
       'documented block order (skin, BladeStiff2D flanges, TStiff2D base+flange, each in insertion order); PSD judged against eps*||K||', '4/C13')
 
 claim('C14', 'differential execution of equivalent descriptions: pairs of real executions whose matrices or eigenvalues must coincide or be related by a known factor',
@@ -113,17 +113,17 @@ claim('C15', 'observation of the whole pipeline (laminate -> k0/kG0/kM -> packag
 
 claim('C16', 'reference-model monitor on ConeCyl linear matrices: energy Hessian by quadrature of ConeCyl.strain (odd symmetrisation) on the free amplitudes, convergence monitor in the number of meridian sections for cones, differential execution of kernel pairs',
       'Classical models: k0 minus the real edge-restraint matrix is compared entry-wise with the surface strain-energy Hessian (cylinders exact; cones through s = 10,20,40,80 with s^-2 rate and Richardson limit); all models: symmetry, PSD, partition book-keeping; '
-      'fk0/fkG0 at alpha=0 vs fk0_cyl/fkG0_cyl called directly with the same F; iso short-cut models vs general models with an isotropic laminate; kG0 linear in (Fc,P,T) and combined-load split.',
+      'fk0/fkG0 at alpha=0 vs fk0_cyl/fkG0_cyl called directly with the same F; iso short-cut models vs general models with an isotropic laminate; kG0 linear in (Fc,P,T) and combined-load split. Also: the elastic edge-restraint part against the edge spring energy with all constants distinct, forced-orthotropic and F_reuse laminates, the axial load given as a top line load.',
       'ConeCyl.strain of the matching commons module (iso models borrow the general model field); FSDT models are outside the energy clause as in the statement', '4/C16')
 
 claim('C18', 'monitors on the real ConeCyl: geometry identities after _rebuild, inverse book-keeping of exclude_dofs_matrix/calc_full_c on random sparse matrices, calc_fext judged by virtual work against ConeCyl.uvw (quadrature of the recovered field), recorder on sparse.solve for the static solution',
       'Derived radii/height/meridian length from every admissible pair of inputs; partition blocks (kuu, kuk, kku, kkk) and re-insertion for every excluded-dof set with random matrices and vectors; fext.c_u against the work of point forces, axial load (edge circle), pressure '
-      '(surface quadrature) and torque on the reported displacement field with the prescribed-displacement columns moved to the right-hand side; affine dependence on the load factor and fext(0) = constant loads; the observed solve call of static() must use k0uu and calc_fext(1) and satisfy K_uu c_u = f_u.',
+      '(surface quadrature) and torque on the reported displacement field with the prescribed-displacement columns moved to the right-hand side; affine dependence on the load factor and fext(0) = constant loads; the observed solve call of static() must use k0uu and calc_fext(1) and satisfy K_uu c_u = f_u. Also: load asymmetry (MLA / xiLA) judged by ring statics.',
       'torque judged for bc1/bc2 variants only (point-force and line-load readings coincide there); FSDT pressure is a rejection (NotImplementedError)', '4/C18')
 
 claim('C17', 'polynomial-exact differencing monitor on ConeCyl.calc_fint / calc_kT with identical integration settings; separate executions for thread counts and integration rules',
       'For the 12 non-linear-capable shell models, cylinders and cones, trapezoid and Simpson rules, 1..8 threads: fint(0)=0, the linear coefficient of t->fint(t c) equals k0uu c, kTuu symmetric, kTuu dc equals the exact 5-point-stencil derivative of fint for random directions, '
-      'fint and kT agree across thread counts to 1e-11 and repeat bit-exactly at a fixed count.',
+      'fint and kT agree across thread counts to 1e-11 and repeat bit-exactly at a fixed count. Also: load factor with prescribed shortening / twist, imperfection coefficients (three families), the zero free state, quiet-part states, memory layouts; directional defect-model classifier for large systems.',
       'fint polynomial of degree <= 4 in the amplitudes (checked per case); imperfection coefficients c0 are not exercised (stated in DESIGN section 8)', '4/C17')
 
 claim('C20', 'call-history recorder: random words over the public evaluation methods executed on one object, every call compared with the same call made first on a fresh identical object; digests of caller-owned arrays before/after; repetition under varying thread counts',
